@@ -176,7 +176,7 @@ class Context:
         toString/valueOf by the interpreter that is running (plain conversion
         when no script is running)."""
         vm = self._current_vm
-        if vm is not None and isinstance(value, JSObject):
+        if vm is not None and isinstance(value, (JSObject, JSFunction)):
             return vm._to_string(value)
         return to_string(value)
 
